@@ -54,6 +54,10 @@ def small_scenario(seed, k):
     sc['threads'] = [ops(rng.choice([1, 2])), ops(rng.choice([1, 2]))]
     sc['disc'] = {'by': rng.choice(['coord', 0, 1]),
                   'immediate': rng.random() < 0.3}
+    # exactly one disconnect, the one chosen here: the base scenario's
+    # quitting listener (whose disconnect the oracle would not take as the
+    # first one) belongs to its own threads and tags, not to these
+    sc['quit_on'] = None
     sc['sched'] = {'granularity': 'line', 'max_steps': 400000}
     sc['server']['conns'][0]['play'] = [['ka', 5]] if k % 2 else []
     if sc['mode'] == 'play-switch':
